@@ -108,6 +108,8 @@ type Frame struct {
 	siteChan    ssa.Value // channel operand of the select case being visited
 	keepRegions map[string]bool // protected regions preserved by the call being processed
 	localCells map[string][]Term // region -> refs of non-escaping local cells (Alloc) of this frame
+	ownLoops   int // number of loops of the function itself (root frame)
+	migrated   int // loop clauses of the root contract handed to loops of helpers executed in place
 }
 
 type dref struct {
@@ -398,12 +400,59 @@ func (f *Frame) prepare() {
 		}
 	}
 	sort.Slice(headers, func(i, j int) bool { return headers[i].Index < headers[j].Index })
+	if f.top {
+		f.ownLoops = len(headers)
+	}
+	root := f.rootFrame()
 	for k, h := range headers {
 		f.loops[h].k = k
 		if f.fc != nil {
 			f.loops[h].spec = f.fc.Loops[k]
 		}
+		if !f.top && root.top && root.fc != nil {
+			// a loop of a helper that is executed in place takes the next loop clause of the
+			// root contract that the root function has no loop of its own for (a loop moved
+			// into an extracted helper keeps its invariant and its obligation names)
+			kk := root.ownLoops + root.migrated
+			f.loops[h].k = kk
+			f.loops[h].spec = root.fc.Loops[kk]
+			root.migrated++
+		}
 	}
+}
+
+func (f *Frame) rootFrame() *Frame {
+	r := f
+	for r.parent != nil {
+		r = r.parent
+	}
+	return r
+}
+
+// loopEnv is the environment loop clauses are evaluated in. For a loop of the function under
+// contract: its own names. For a loop of a helper executed in place: loop variables and the
+// helper's names first, then the names of the function under contract at the call; ghosts and
+// old() always refer to the function under contract.
+func (f *Frame) loopEnv(li *loopInfo, over map[string]Value, st *State) *CEnv {
+	if f.parent == nil {
+		return f.cenv(f.loopLookup(li, over, st), st.heap, f.entrySt.heap)
+	}
+	root := f.rootFrame()
+	sub := f.lookupAt(li.header, 0, st)
+	rootLookup := root.lookupAt(root.curBlock, root.curIdx, st)
+	lookup := func(name string) (CVal, bool) {
+		if v, ok := over[name]; ok {
+			return f.cval(v, v.Ty), true
+		}
+		if v, ok := root.ghostLookup(name, st); ok {
+			return v, true
+		}
+		if v, ok := sub(name); ok {
+			return v, true
+		}
+		return rootLookup(name)
+	}
+	return root.cenv(lookup, st.heap, root.entrySt.heap)
 }
 
 func instrKind(ins ssa.Instruction) string {
@@ -757,7 +806,7 @@ func (f *Frame) enterLoop(li *loopInfo, st *State) *State {
 		}
 		li.spec.Invariants = append(li.spec.Invariants, Clause{Text: "true", E: e, Line: "default"})
 	}
-	if !f.top || li.spec == nil || (len(li.spec.Invariants) == 0 && li.spec.Unroll == 0) {
+	if li.spec == nil || (len(li.spec.Invariants) == 0 && li.spec.Unroll == 0) {
 		f.errorf("loop %d (block %d, %s) has no invariant", li.k, li.header.Index, li.header.Comment)
 		return nil
 	}
@@ -785,7 +834,7 @@ func (f *Frame) enterLoop(li *loopInfo, st *State) *State {
 		f.applyLemma(lu, fmt.Sprintf("loop %d entry", li.k), f.loopLookup(li, over, st), st)
 	}
 	for i, inv := range li.spec.Invariants {
-		ce := f.cenv(f.loopLookup(li, over, st), st.heap, f.entrySt.heap)
+		ce := f.loopEnv(li, over, st)
 		t, err := ce.evalBool(inv.E)
 		if err != nil {
 			f.errorf("loop %d invariant %q: %v", li.k, inv.Text, err)
@@ -858,7 +907,7 @@ func (f *Frame) enterLoop(li *loopInfo, st *State) *State {
 		}
 	}
 	for _, inv := range li.spec.Invariants {
-		ce := f.cenv(f.loopLookup(li, over2, hst), hst.heap, f.entrySt.heap)
+		ce := f.loopEnv(li, over2, hst)
 		t, err := ce.evalBool(inv.E)
 		if err != nil {
 			continue
@@ -869,7 +918,7 @@ func (f *Frame) enterLoop(li *loopInfo, st *State) *State {
 		f.applyLemma(lu, fmt.Sprintf("loop %d header", li.k), f.loopLookup(li, over2, hst), hst)
 	}
 	if li.spec.Decreases != nil {
-		ce := f.cenv(f.loopLookup(li, over2, hst), hst.heap, f.entrySt.heap)
+		ce := f.loopEnv(li, over2, hst)
 		v, err := ce.evalAny(li.spec.Decreases.E)
 		if err != nil {
 			f.errorf("loop %d decreases: %v", li.k, err)
@@ -912,7 +961,7 @@ func (f *Frame) backEdge(li *loopInfo, from *ssa.BasicBlock, cond Term, st *Stat
 	bst := st.clone()
 	bst.reach = cond
 	for i, inv := range li.spec.Invariants {
-		ce := f.cenv(f.loopLookup(li, over, bst), bst.heap, f.entrySt.heap)
+		ce := f.loopEnv(li, over, bst)
 		t, err := ce.evalBool(inv.E)
 		if err != nil {
 			f.errorf("loop %d invariant %q (back edge): %v", li.k, inv.Text, err)
@@ -930,7 +979,7 @@ func (f *Frame) backEdge(li *loopInfo, from *ssa.BasicBlock, cond Term, st *Stat
 		}
 	}
 	if li.hasMeas {
-		ce := f.cenv(f.loopLookup(li, over, bst), bst.heap, f.entrySt.heap)
+		ce := f.loopEnv(li, over, bst)
 		v, err := ce.evalAny(li.spec.Decreases.E)
 		if err == nil {
 			v = ce.defaultInt(v)
@@ -979,6 +1028,18 @@ func (f *Frame) loopWrites(li *loopInfo) []string {
 func (f *Frame) instrWrites(ins ssa.Instruction, set map[string]bool) {
 	switch x := ins.(type) {
 	case *ssa.Store:
+		if f.parent != nil {
+			// in a helper executed in place a pointer may be any address handed in by the caller
+			switch x.Addr.(type) {
+			case *ssa.FieldAddr, *ssa.IndexAddr, *ssa.Global, *ssa.Alloc:
+			default:
+				if v, ok := f.env[x.Addr]; ok && v.Addr != nil {
+					set[v.Addr.Region] = true
+				} else {
+					set["*"] = true
+				}
+			}
+		}
 		for _, r := range f.regionsOfPointer(x.Addr) {
 			set[r] = true
 		}
@@ -998,7 +1059,13 @@ func (f *Frame) instrWrites(ins ssa.Instruction, set map[string]bool) {
 	}
 	// ghost updates attached to sites: only those whose site pattern can fire at this
 	// instruction (or inside a callee that is executed in place at this instruction)
-	if f.fc != nil {
+	sfc := f.fc
+	if f.parent != nil {
+		if root := f.rootFrame(); root.top {
+			sfc = root.fc
+		}
+	}
+	if sfc != nil {
 		var kinds []string
 		nested := false
 		switch x := ins.(type) {
@@ -1046,9 +1113,12 @@ func (f *Frame) instrWrites(ins ssa.Instruction, set map[string]bool) {
 		case *ssa.Panic:
 			kinds = []string{"panic"}
 		}
-		for _, s := range f.fc.Sites {
+		for _, s := range sfc.Sites {
 			if len(s.Ghost) == 0 {
 				continue
+			}
+			if f.parent != nil && strings.Contains(s.Pattern, "#") {
+				continue // numbered patterns do not extend into helpers
 			}
 			hit := false
 			if _, isRD := ins.(*ssa.RunDefers); isRD {
@@ -1076,7 +1146,11 @@ func (f *Frame) instrWrites(ins ssa.Instruction, set map[string]bool) {
 			}
 			if hit {
 				for _, g := range s.Ghost {
-					set["Gh_"+g.Name] = true
+					if region, _, isG := f.u.globalGhost(g.Name); isG {
+						set[region] = true
+					} else {
+						set["Gh_"+g.Name] = true
+					}
 				}
 			}
 		}
